@@ -5,7 +5,7 @@ V = '/verif'
 SCRATCH = '/tmp/wt_seed'   # seeds are applied to a scratch worktree of /repo (VERIF_REPO), not to /repo itself
 EXTRA = {'C05-v2': ['C05', 'C16'], 'C06-v1': ['C06'], 'C06-v2': ['C06', 'C05'], 'C07-v2': ['C07', 'C08'], 'C08-v1': ['C08'], 'C08-v2': ['C08', 'C07'],
          'C04-v1': ['C04'], 'C04-v2': ['C04'], 'C11-v1': ['C11'], 'C11-v2': ['C11'], 'C03-v1': ['C03'], 'C03-v2': ['C03'], 'C01-v1': ['C01'], 'C01-v2': ['C01'], 'C09-v1': ['C09', 'C03'], 'C09-v2': ['C09'],
-         'C04b-v1': ['C04', 'C07'], 'C20-v1': ['C20'], 'C19-v1': ['C19', 'C12'], 'C19-v2': ['C19', 'C13'], 'C12-v1': ['C12'], 'C12-v2': ['C12', 'C07'], 'C13-v1': ['C13'], 'C13-v2': ['C13'], 'C18-v1': ['C18'], 'C18-v2': ['C18'], 'C05-v1': ['C05'], 'C02-v1': ['C02'], 'C02-v2': ['C02'], 'C07-v1': ['C07']}
+         'C04b-v1': ['C04', 'C07'], 'C01b-v1': ['C01', 'C04'], 'C09b-v2': ['C09'], 'C13b-v2': ['C13', 'C19'], 'C20-v1': ['C20'], 'C19-v1': ['C19', 'C12'], 'C19-v2': ['C19', 'C13'], 'C12-v1': ['C12'], 'C12-v2': ['C12', 'C07'], 'C13-v1': ['C13'], 'C13-v2': ['C13'], 'C18-v1': ['C18'], 'C18-v2': ['C18'], 'C05-v1': ['C05'], 'C02-v1': ['C02'], 'C02-v2': ['C02'], 'C07-v1': ['C07']}
 TIER = {('C20-v1', 'C20'): 'thorough'}   # caught by a thorough-only harness (h_toyfork)
 force = '--force' in sys.argv
 only = [a for a in sys.argv[1:] if not a.startswith('--')]
